@@ -513,6 +513,12 @@ func (vs *ValidatorStore) GetEndBlockUpdate(ctx *ValidatorContext, req types.Req
 			if !ok {
 				continue
 			}
+			// nobody qualified in this block: the purges would empty the validator set, which tendermint
+			// refuses (the chain stops). keep the current set until somebody qualifies again
+			if activeCount == 0 {
+				logger.Errorf("no validator elected at block %d, validator: %s stays in the set", height, addrHuman)
+				continue
+			}
 			// get last purge height
 			purgeHeight, err := vs.GetLastPurgeHeight(keys.Address(addr))
 			if err != nil {
